@@ -870,6 +870,20 @@ def connector_refusal_probes():
     return out
 
 
+def _who(o):
+    e = getattr(o, "_element", None)
+    try:
+        part = getattr(getattr(o, "part", None), "partname", "?")
+    except Exception:
+        part = "?"
+    nm = None
+    try:
+        nm = getattr(o, "name", None)
+    except Exception:
+        pass
+    return "%s %r in %s <%s>" % (type(o).__name__, nm, part, getattr(e, "tag", "?").split("}")[-1] if e is not None else "?")
+
+
 def _native_setget_sweep(tier="quick", seed=0):
     import glob
     import inspect as _insp
@@ -958,13 +972,9 @@ def _native_setget_sweep(tier="quick", seed=0):
     def sweep(prs, label, per_key, rnd):
         """returns a description of a crash, if any; mismatches are collected in `found` under '<class>.<property>:<kind>'"""
         tg, _ = targets(prs, per_key)
-        last_of = {}
         for o, n, k in tg:
             spec = D[k]
             cls = type(o).__name__
-            # other properties of this very object may legitimately be one setting with this one (crosses / crosses_at, fill kinds ...)
-            for kk in [kk for kk, (po, _) in last_of.items() if kk != k and (po is o or getattr(po, "_element", None) is getattr(o, "_element", object()))]:
-                del last_of[kk]
             try:
                 prepare(o, k)
             except Exception:
@@ -1013,21 +1023,39 @@ def _native_setget_sweep(tier="quick", seed=0):
                     found.setdefault("%s.%s:changes-%s" % (k[0], n, ch[0]), "%s: %s.%s = %r changed the reading of %s from %r to %r" % (label, cls, n, v, ch[0], before[ch[0]], after[ch[0]]))
                     break
                 first = got
-            else:
-                # the object swept before this one for the same property still reads what it was left with (objects of one kind do
-                # not share the element that carries the value)
-                prev = last_of.get(k)
-                e_now = getattr(o, "_element", None)
-                if prev is not None and prev[0] is not o and e_now is not None and getattr(prev[0], "_element", None) is not e_now:
-                    try:
-                        again = getattr(prev[0], n)
-                        if not _same(again, prev[1], spec.get("tol", 0)):
-                            found.setdefault("%s.%s:changed-by-another-object" % (k[0], n), "%s: %s.%s was left reading %r; after assignments to the same property of another %s it reads %r" % (
-                                label, cls, n, prev[1], cls, again))
-                    except Exception as e:
-                        found.setdefault("%s.%s:changed-by-another-object" % (k[0], n), "%s: %s.%s was left reading %r; after assignments to the same property of another %s reading raises %r" % (
-                            label, cls, n, prev[1], cls, e))
-                last_of[k] = (o, first)
+        # two objects of one kind, the same property, one assignment each with nothing in between: the first still reads its value
+        # (objects of one kind do not share the element that carries the value; a creator must not hand out one element twice)
+        ident = lambda q: (id(getattr(q, "_element", q)), getattr(q, "_idx", None))
+        by_key = {}
+        for o, n, k in tg:
+            if not D[k].get("may_refuse"):
+                by_key.setdefault((k, type(o).__name__, n), []).append(o)
+        for (k, cls, n), objs_ in by_key.items():
+            spec = D[k]
+            distinct = []
+            for q in objs_:
+                if ident(q) not in [ident(x) for x in distinct]:
+                    distinct.append(q)
+            vals = list(spec["vals"])
+            for a_, b_ in zip(distinct, distinct[1:]):
+                evals[0] += 1
+                try:
+                    prepare(a_, k)
+                    prepare(b_, k)
+                    setattr(a_, n, vals[0])
+                    mine = getattr(a_, n)
+                    setattr(b_, n, vals[1 % len(vals)])
+                except Exception:
+                    continue
+                try:
+                    again = getattr(a_, n)
+                    ok_ = _same(again, mine, spec.get("tol", 0))
+                except Exception as e:
+                    again, ok_ = "raises %r" % (e,), False
+                if not ok_:
+                    found.setdefault("%s.%s:changed-by-another-object" % (k[0], n), "%s: %s.%s = %r reads %r; right after %s.%s = %r on another %s it reads %s [%s -> %s]" % (
+                        label, cls, n, vals[0], mine, cls, n, vals[1 % len(vals)], cls, again, _who(a_), _who(b_)))
+                    break
         # values outside the documented domain
         for o, n, k in tg:
             spec = D[k]
